@@ -28,6 +28,8 @@ TEXT = {
          "Coq proof (both closed forms compared guard by guard) + differential correspondence"),
  "C15": ("Theorems over unbounded histories of calls (successful and failed encap, reset, disable, enable, enable-with-max): a ghost history (label of the preceding emitted packet, substitutions since the last full label) and an invariant proved by induction over the operation list give the four clauses: no substitution while disabled, substitution only for the label carried by the immediately preceding packet (hence never after reset/broadcast), at most N substitutions per run with max N. c15_link ties the abstract step to the model's encap (state and label type written).",
          "Coq proof (invariant by induction over operation histories) + differential correspondence"),
+ "C17": ("Theorems for every sequence of the five memory operations on a new memory with any number of slots (including zero): no panic, well-formedness preserved (induction over the operation list); each operation is characterised exactly on the free list and the slot map (provision hands back the same buffer iff full or too small; new_pdu fails iff no buffer is free; new_frag steals the slot's buffer or takes a free one; take_frag returns the saved context iff its frag id matches and otherwise leaves the memory unchanged; save_frag into an occupied slot is refused); take-after-save returns exactly what was saved. Buffers are values moved as a whole, so contents cannot change. Correspondence: exhaustive operation sequences to depth 4/5 plus random sequences, state observed after every operation; a Python bag-plus-slots contract is evaluated on the implementation.",
+         "Coq proof (characterisation of each operation + induction over operation sequences) + exhaustive bounded-depth correspondence"),
 }
 
 def main():
